@@ -88,6 +88,14 @@ def extract(src, what, sig_rx):
     return src[m.end():end - 1]
 
 
+def extract_all(src, what, sig_rx):
+    """the bodies of all overloads that match (const / non-const)"""
+    ms = list(re.finditer(sig_rx + r"\s*(?:const\s*)?\{", src))
+    if not ms:
+        raise Refuse(f"{what}: no definition found")
+    return [src[m.end():balanced(src, m.end() - 1) - 1] for m in ms]
+
+
 def resolve_verify(body, fn):
     """`#ifdef VERIFY  VERIFY(X == p);  #else  X;  #endif`  ->  `X;` (both variants construct the same item)"""
     def rep(m):
@@ -543,6 +551,38 @@ class Tr:
             return self.ev(e[2], env, ind, after_a)
         if kind == "call":
             return self.call(e, env, ind, k)
+        if kind == "dot" and e[2] == "item" and e[1][0] == "call":
+            return self.ev(e[1], env, ind, k)              # the pointer the returned iterator holds
+        if kind == "bin" and e[1] in ("==", "!="):
+            def after_a(ta, tya, env2, ind2):
+                def after_b(tb, tyb, env3, ind3):
+                    tys = {tya, tyb}
+                    eq = e[1] == "=="
+                    if tys == {"opt", "null"} or tys == {"item", "null"}:
+                        x, xt = (ta, tya) if tyb == "null" else (tb, tyb)
+                        x = self.coerce(x, xt, "opt")
+                        return k(f"{x}.isNone" if eq else f"{x}.isSome", "bool", env3, ind3)
+                    if tys <= {"nat"}:
+                        a, b = ta, tb
+                    elif tys <= {"nxt", "item"}:
+                        a, b = self.coerce(ta, tya, "nxt"), self.coerce(tb, tyb, "nxt")
+                    else:
+                        self.refuse(f"comparison of values of types {tya} and {tyb}")
+                    return k(f"(decide ({a} {'=' if eq else '≠'} {b}))", "bool", env3, ind3)
+                return self.ev(e[3], env2, ind2, after_b)
+            return self.ev(e[2], env, ind, after_a)
+        if kind == "not":
+            def after_n(t, ty, env2, ind2):
+                if ty in ("opt", "item"):
+                    return k(f"{self.coerce(t, ty, 'opt')}.isNone", "bool", env2, ind2)
+                if ty == "bool":
+                    if t.endswith(".isNone"):
+                        return k(t[:-len(".isNone")] + ".isSome", "bool", env2, ind2)
+                    if t.startswith("(decide (") and " = " in t:
+                        return k(t.replace(" = ", " ≠ ", 1), "bool", env2, ind2)
+                    return k(f"(!{t})", "bool", env2, ind2)
+                self.refuse(f"`!` applied to a value of type {ty}")
+            return self.ev(e[1], env, ind, after_n)
         if kind == "deref":
             def after(t, ty, env2, ind2):
                 if ty == "cell":
@@ -1174,6 +1214,18 @@ def specs_for(cls):
         "removeFront": {"lean": "removeFront", "rx": r"Iterator\s+removeFront\s*\(\s*\)", "params": [], "ret": "nxt"},
         "removeBack": {"lean": "removeBack", "rx": r"Iterator\s+removeBack\s*\(\s*\)", "params": [], "ret": "nxt"},
     }
+    s["size"] = {"lean": "size", "rx": r"usize\s+size\s*\(\s*\)", "params": [], "ret": "nat"}
+    s["isEmpty"] = {"lean": "isEmpty", "rx": r"bool\s+isEmpty\s*\(\s*\)", "params": [], "ret": "bool"}
+    s["contains"] = {"lean": "contains", "rx": r"bool\s+contains\s*\(\s*const\s+T\s*&\s*key\s*\)", "params": [("key", "nat")], "ret": "bool"}
+    # front / back: what the returned reference shows (HashSet: the key; the maps: the value); every overload must agree
+    s["front"] = {"lean": "front", "rx": r"(?:const\s+)?[TV]\s*&\s*front\s*\(\s*\)", "params": [], "ret": "nat", "multi": True}
+    s["back"] = {"lean": "back", "rx": r"(?:const\s+)?[TV]\s*&\s*back\s*\(\s*\)", "params": [], "ret": "nat", "multi": True}
+    kv = [("key", "nat")] + ([("value", "nat")] if val else [])
+    sigkv = r"const\s+T\s*&\s*key\s*" + (r",\s*const\s+V\s*&\s*value\s*" if val else "")
+    wret, wrx = (None, r"void") if cls == "HashSet" else ("nat", r"V\s*&")
+    s["append"] = {"lean": "append", "rx": wrx + r"\s*append\s*\(\s*" + sigkv + r"\)", "params": kv, "ret": wret}
+    if cls != "PoolMap":
+        s["prepend"] = {"lean": "prepend", "rx": wrx + r"\s*prepend\s*\(\s*" + sigkv + r"\)", "params": kv, "ret": wret}
     if cls != "PoolMap":
         s["assign"] = {"lean": "assign", "rx": cls + r"\s*&\s*operator\s*=\s*\(\s*const\s+" + cls + r"\s*&\s*other\s*\)",
                        "params": [], "ret": None, "other": True}
@@ -1196,7 +1248,7 @@ def specs_for(cls):
 
 
 ORDER = ["find", "removeValue", "removeIt", "removeKey", "removeFront", "removeBack", "insert", "clear", "assign", "appendAll",
-         "removeAll", "equal", "assignSelf", "appendSelf", "removeSelf"]
+         "removeAll", "equal", "assignSelf", "appendSelf", "removeSelf", "size", "isEmpty", "contains", "front", "back", "append", "prepend"]
 
 
 class Gen:
@@ -1252,17 +1304,22 @@ class Gen:
                 continue
             spec = specs[name]
             fn = name
-            body = resolve_verify(extract(src, f"{cls}::{fn}", spec["rx"]), f"{cls}::{fn}")
-            p = P(tokenize(body), f"{cls}::{fn}")
-            stmts = p.stmts()
-            if p.peek() is not None:
-                raise Refuse(f"{cls}::{fn}: trailing tokens")
-            tr = Tr(cls, fn, spec, self)
-            env = {pn: (pn, ty) for pn, ty in spec["params"]}
-            lines = tr.run(stmts, env, "  ")
-            sig = "".join(f" ({pn} : {LEAN_TY[ty]})" for pn, ty in spec["params"])
-            parts += tr.aux
-            parts.append(f"def {spec['lean']} (h : Nat → Nat) (t : PTable){tr.osig()}{sig} : Option {tr.ret_ty()} :=\n" + "\n".join(lines) + "\n")
+            bodies = extract_all(src, f"{cls}::{fn}", spec["rx"]) if spec.get("multi") else [extract(src, f"{cls}::{fn}", spec["rx"])]
+            texts = []
+            for body in bodies:
+                body = resolve_verify(body, f"{cls}::{fn}")
+                p = P(tokenize(body), f"{cls}::{fn}")
+                stmts = p.stmts()
+                if p.peek() is not None:
+                    raise Refuse(f"{cls}::{fn}: trailing tokens")
+                tr = Tr(cls, fn, spec, self)
+                env = {pn: (pn, ty) for pn, ty in spec["params"]}
+                lines = tr.run(stmts, env, "  ")
+                sig = "".join(f" ({pn} : {LEAN_TY[ty]})" for pn, ty in spec["params"])
+                texts.append(tr.aux + [f"def {spec['lean']} (h : Nat → Nat) (t : PTable){tr.osig()}{sig} : Option {tr.ret_ty()} :=\n" + "\n".join(lines) + "\n"])
+            if any(x != texts[0] for x in texts):
+                raise Refuse(f"{cls}::{fn}: the const and the non-const overload differ")
+            parts += texts[0]
             spec["done"] = True
             summary.append(f"{fn}:{len(stmts)}")
         # swap
